@@ -2,6 +2,7 @@ import CssVerif.Lemmas.Num
 import CssVerif.Lemmas.NumColor
 import CssVerif.Lemmas.NumStr
 import CssVerif.Model.NumF64
+import CssVerif.Lemmas.NumF64
 /-!
 # C18 — value normalisation never changes what a value denotes
 
@@ -144,7 +145,30 @@ of every run — 134 000 per quick run — but not yet proved in Lean, see docs/
         (hr : if E.allZero (l.fp.getD []) then natOfDigits l.ip ≤ 2^53 else natOfDigits l.ip < 2^33) :
         roundTripF64 p typ l.text = roundTrip p typ l.text
 
+What IS proved of the bridge is its numerical core (`f64_sixth_decimal_partial`): a double within half an ulp of a
+six-place decimal is printed by `'%f'` with exactly the digits of that decimal as soon as its exponent is ≤ -20 —
+which is the case for every double below 2^33, and for none from 2^33 on. Missing for the full `f64_bridge`: that
+`nearestF64` returns such a double (its definition rounds to nearest at a 53-bit quotient; validated against
+CPython on every literal of every run), the same argument for `== 0`, `== int(x)`, `-1 < x < 1`, and that
+`natToDigits` of the two halves of `n6` spells the literal's digits.
+
 Outside that window the implementation really is lossy: -/
+
+/-- the numerical core of `f64_bridge` (partial, see above): for every double `m · 2^-j` with `j ≥ 20` within half
+an ulp (`2^-(j+1)`) of the decimal `n6 / 10^6` — the two hypotheses are that inequality multiplied out —
+`'%f'` prints exactly `n6`: integer digits `n6 / 10^6`, a point, and `n6 % 10^6` on six places -/
+theorem f64_sixth_decimal_partial (neg : Bool) (m j n6 : Nat) (hj : 20 ≤ j)
+    (h1 : 2 * (m * 10 ^ 6 - n6 * 2 ^ j) ≤ 10 ^ 6) (h2 : 2 * (n6 * 2 ^ j - m * 10 ^ 6) ≤ 10 ^ 6) :
+    F.pctF { neg := neg, m := m, e := -(j : Int) } =
+      (if neg then [cMinus] else []) ++ natToDigits (n6 / 10 ^ 6) ++ cDot ::
+        (List.replicate (6 - (natToDigits (n6 % 10 ^ 6)).length) cZero ++ natToDigits (n6 % 10 ^ 6)) :=
+  pctF_of_close neg m j n6 hj h1 h2
+
+/-- the hypotheses are satisfiable: 0.1 = 100000 / 10^6 and its double 0x1.999999999999ap-4 = 7205759403792794 · 2^-56 -/
+example : 2 * (7205759403792794 * 10 ^ 6 - 100000 * 2 ^ 56) ≤ 10 ^ 6 ∧
+    2 * (100000 * 2 ^ 56 - 7205759403792794 * 10 ^ 6) ≤ 10 ^ 6 ∧
+    toF64 [] (cps "0") (cps "1") = some { neg := false, m := 7205759403792794, e := -56 } := by decide +kernel
+
 
 /-- the witness of `C18-float-digits`, machine-checked: CPython's arithmetic writes `8589934592.3px` as
 `8589934592.299999px` (2^33 is the first magnitude where half an ulp exceeds half a unit of the sixth decimal),
